@@ -118,7 +118,7 @@ def make_base(case):
     return w
 
 
-def wrap(base, chain, normalise=False):
+def wrap(base, chain, normalise=False, variant=0):
     """build the wrapper objects; with normalise=True negative items are first converted to their
     numpy meaning (astropy's SlicedLowLevelWCS takes negative numbers literally)"""
     from astropy.wcs.wcsapi import SlicedLowLevelWCS
@@ -138,9 +138,12 @@ def wrap(base, chain, normalise=False):
                     else:
                         new.append(it + n if it < 0 else it)
                 items = new
-            w = SlicedLowLevelWCS(w, C.to_py_index(items))
+            w = SlicedLowLevelWCS(w, C.to_py_index(items, npint=(variant == 1)))
         else:
-            w = ResampledLowLevelWCS(w, st["resampled"]["factor"], st["resampled"]["offset"])
+            # the documented argument types: lists of numbers, numpy arrays, tuples
+            conv = [list, np.array, tuple][variant % 3]
+            f, o = st["resampled"]["factor"], st["resampled"]["offset"]
+            w = ResampledLowLevelWCS(w, conv(f) if isinstance(f, list) else f, conv(o) if isinstance(o, list) else o)
     return w
 
 
@@ -224,7 +227,7 @@ def run(case):
             ref = top
             expect_shape = tuple(cube.data.shape)
         else:
-            top = wrap(base, case["chain"])
+            top = wrap(base, case["chain"], variant=case["wseed"] % 3)
             ref = wrap(base, case["chain"], normalise=True)
             expect_shape = None
         chain, b2 = chain_of(top)
